@@ -62,6 +62,10 @@ SAMPLING = [
     ("on_t_sample", {"t_sample": [0.3]}),                              # single element, not at 0
     ("on_t_sample", {"t_sample": [0, 0.1, 5.0], "t_max": 0.5}),        # request beyond t_max
     ("on_t_sample", {"t_sample": [], "t_max": 0.5}),                   # no request at all
+    # requested times written twice; the numbers of distinct / of written times are chosen so that a buffer sized by one
+    # and read by the other crosses a 16-byte allocation bucket (numpy rounds small buffers up to 16 bytes)
+    ("on_t_sample", {"t_sample": [0, 0.1, 0.1, 0.4, 0.5]}),
+    ("on_t_sample", {"t_sample": [0, 0, 0.25, 0.25, 0.5, 0.75]}),
     ("on_iteration", {"t_sample": [0], "t_max": 0.5}),
     ("on_interval", {"t_sample": [0], "t_max": 0.6, "interval": 0.2}),
     ("no_sampling", {"t_sample": [0], "t_max": 0.5}),
@@ -279,7 +283,8 @@ def run(ctx):
     c10.VARIANT, c10.PID = "san", "C11"
     eng.so_path("san")
     eng.so_path("plain")
-    hjobs, subs = c10.build_jobs(ctx.tier, ctx.seed, d1=4 if ctx.tier == "quick" else 6, d2=3 if ctx.tier == "quick" else 5)
+    hjobs, subs = c10.build_jobs(ctx.tier, ctx.seed, d1=4 if ctx.tier == "quick" else 6, d2=3 if ctx.tier == "quick" else 5,
+                                 dlm=4 if ctx.tier == "quick" else 5)
     sc = list(shape_cases(ctx.tier, ctx.seed)) + list(bignet_cases(ctx.tier, ctx.seed)) + list(pinned_cases())
     _JOBS = [("shape", c) for c in sc] + hjobs
     ctx.sample(sc[len(sc) // 2])
@@ -316,7 +321,7 @@ def run(ctx):
             continue
         core.merge(ctx, r)
         done += job[1] - job[0]
-    ctx.subspace("script-shape catalogue on the sanitized build (3 engines x %d spaces x 7 sampling entries x 4 processing modes x "
+    ctx.subspace("script-shape catalogue on the sanitized build (3 engines x %d spaces x 9 sampling entries x 4 processing modes x "
                  "5 state classes, diagonal sub-lattice%s; + 3 engines x 8 larger network shapes (orders 4-6, coefficient 5, 5 species x 6 "
                  "reactions, 3 and 5 environments) x 3 spaces x state classes) each compared with the plain build"
                  % (len(spaces(ctx.tier)), " 1/5" if ctx.tier == "quick" else " 1/2"), len(sc), len(sc) if done == len(_JOBS) else 0,
